@@ -51,6 +51,21 @@ def cleanup(d):
             pass
 
 
+def _record(prop, name, rc, wall, viol, exp):
+    p = os.path.join(ROOT, 'mutants', 'results.json')
+    try:
+        res = json.load(open(p))
+    except (OSError, ValueError):
+        res = {}
+    res['%s/%s' % (prop, name)] = {
+        'exit': rc, 'wall_s': round(wall, 1), 'expected': exp,
+        'classes': [l.strip().split()[0].replace('class=', '')
+                    for l in viol if l.startswith('  class=')],
+        'tree': subprocess.check_output(
+            ['git', '-C', REPO, 'log', '-1', '--format=%h']).decode().strip()}
+    json.dump(res, open(p, 'w'), indent=1, sort_keys=True)
+
+
 def main(argv):
     if argv[0] == 'run':
         prop = argv[1]
@@ -84,6 +99,7 @@ def main(argv):
                     and rc == 0 else ''), flush=True)
                 for l in viol:
                     print('      ' + l[:230])
+                _record(prop, m['name'], rc, wall, viol, exp)
                 if (rc != 1 and exp == 'caught') or (exp == 'missed'
                                                       and rc != 0):
                     rc_all = 1
